@@ -47,7 +47,9 @@ impl Int {
     /// Otherwise nothing will be returned (undefined).
     pub fn as_negative(&self) -> Option<BigNum> {
         if !self.is_positive() {
-            Some(((-self.0) as u64).into())
+            use std::convert::TryFrom;
+            // -2^64 is a valid nint but its absolute value does not fit into BigNum
+            u64::try_from(-self.0).ok().map(|x| x.into())
         } else {
             None
         }
@@ -89,7 +91,8 @@ impl Int {
         let x = string
             .parse::<i128>()
             .map_err(|e| JsError::from_str(&format! {"{:?}", e}))?;
-        if x.abs() > u64::MAX as i128 {
+        // CBOR int range: -2^64 ..= 2^64 - 1
+        if x > u64::MAX as i128 || x < -(u64::MAX as i128) - 1 {
             return Err(JsError::from_str(&format!(
                 "{} out of bounds. Value (without sign) must fit within 4 bytes limit of {}",
                 x,
